@@ -39,6 +39,9 @@ func (e *Engine) step() {
 	e.stepTop = fr
 	e.stepFr = *fr
 	e.stepTh = *th
+	e.stepThread = th
+	e.stepNThreads = len(e.threads)
+	e.stepRaceOn = e.raceOn
 	e.pendingAdv = nil
 	e.stepCount++
 	if e.cfg.Verbose > 0 && e.stepCount%20000000 == 0 {
@@ -80,6 +83,10 @@ func (e *Engine) exec(th *Thread, fr *Frame, ci *cInstr) {
 		if r := recover(); r != nil {
 			if _, ok := r.(goPanicSignal); ok {
 				return // panic state has been set up; main loop continues with unwinding
+			}
+			if _, ok := r.(retrySignal); ok {
+				e.pendingAdv = nil
+				return // the thread was descheduled before a synchronising operation; it retries later
 			}
 			panic(r)
 		}
@@ -320,6 +327,9 @@ func (e *Engine) nilDeref() {
 func (e *Engine) storeVia(addr, val Value) {
 	switch p := addr.O.(type) {
 	case Ptr:
+		if e.raceOn {
+			e.raceWrite(p)
+		}
 		e.store(p, val)
 	case *SymPtr:
 		e.symStore(p, val)
@@ -331,6 +341,9 @@ func (e *Engine) storeVia(addr, val Value) {
 func (e *Engine) loadVia(addr Value) Value {
 	switch p := addr.O.(type) {
 	case Ptr:
+		if e.raceOn {
+			e.raceRead(p)
+		}
 		return e.load(p)
 	case *SymPtr:
 		return e.symLoad(p)
